@@ -138,3 +138,34 @@ package getty
 //@   prop C15
 //@   requires g != nil && g.processorMap != nil
 //@   ensures stored: processor != nil ==> g.processorMap[msgType] == processor
+
+// ---- C04 boundary: one synchronous request to the coordinator. Trusted (the environment of the
+// transaction manager): it may fail with any error; when it does not fail the response has the type
+// that answers the request ("well-typed coordinator"). Every call is recorded by request kind.
+//@ ghost var begin_sends int
+//@ ghost var commit_sends int
+//@ ghost var rollback_sends int
+//@ ghost var other_sends int
+//@ ghost var commit_acked bool
+//@ ghost var rollback_acked bool
+//@ ghost var last_send_failed bool
+//@ ghost var commit_xid string
+//@ ghost var rollback_xid string
+//@ func (*GettyRemotingClient).SendSyncRequest
+//@   trusted
+//@   requires client != nil
+//@   modifies ghost.begin_sends, ghost.commit_sends, ghost.rollback_sends, ghost.other_sends, ghost.commit_acked, ghost.rollback_acked, ghost.last_send_failed, ghost.commit_xid, ghost.rollback_xid
+//@   ensures ghost.last_send_failed == (result1 != nil)
+//@   ensures ghost.begin_sends == old(ghost.begin_sends) + ite(isT(msg, message.GlobalBeginRequest), 1, 0)
+//@   ensures ghost.commit_sends == old(ghost.commit_sends) + ite(isT(msg, message.GlobalCommitRequest), 1, 0)
+//@   ensures ghost.rollback_sends == old(ghost.rollback_sends) + ite(isT(msg, message.GlobalRollbackRequest), 1, 0)
+//@   ensures ghost.other_sends == old(ghost.other_sends) + ite(isT(msg, message.GlobalBeginRequest) || isT(msg, message.GlobalCommitRequest) || isT(msg, message.GlobalRollbackRequest), 0, 1)
+//@   ensures ghost.commit_acked == (old(ghost.commit_acked) || (isT(msg, message.GlobalCommitRequest) && result1 == nil))
+//@   ensures ghost.rollback_acked == (old(ghost.rollback_acked) || (isT(msg, message.GlobalRollbackRequest) && result1 == nil))
+//@   ensures isT(msg, message.GlobalCommitRequest) ==> ghost.commit_xid == msg.(message.GlobalCommitRequest).Xid
+//@   ensures !isT(msg, message.GlobalCommitRequest) ==> ghost.commit_xid == old(ghost.commit_xid)
+//@   ensures isT(msg, message.GlobalRollbackRequest) ==> ghost.rollback_xid == msg.(message.GlobalRollbackRequest).Xid
+//@   ensures !isT(msg, message.GlobalRollbackRequest) ==> ghost.rollback_xid == old(ghost.rollback_xid)
+//@   ensures result1 == nil && isT(msg, message.GlobalBeginRequest) ==> isT(result0, message.GlobalBeginResponse)
+//@   ensures result1 == nil && isT(msg, message.GlobalCommitRequest) ==> isT(result0, message.GlobalCommitResponse)
+//@   ensures result1 == nil && isT(msg, message.GlobalRollbackRequest) ==> isT(result0, message.GlobalRollbackResponse)
